@@ -114,8 +114,11 @@ def run(chk, n_fonts):
             cls = ('noface' if noface else 'ok') + '/' + (mv if mv != 'T' else 'OK') + ('' if mv != 'REJ' else mt[3])
             stats[cls] = stats.get(cls, 0) + 1
             classes.add(('fsm', cls, what.split(': ')[-1].split('@')[0]))
-            if mv == 'TRAP' or ' R' in m and ':TRAP' in m:
+            if ':TRAP' in m:
                 ndis += 1; chk.tie_break('model:fsm', 'Model/FsmModel.v indexes outside a table (contradicts C02_fsm_run_in_bounds): %s' % m[:300], c[:300]); continue
+            if mv == 'TRAP' and not noface:
+                # read_fsm is defined on passes whose header Model/PassModel.v accepts: a table running past the pass is refused there
+                ndis += 1; chk.tie_break('model:fsm', 'the loader accepted a pass whose tables Model/FsmModel.v cannot read inside the pass: %s' % m[:300], c[:300]); continue
             if noface:
                 continue                # the loader refused the font (this pass or another; code loading is beyond the model): nothing to compare
             if mv != 'T':
